@@ -146,16 +146,16 @@ def oracle(c):
     return fails
 
 
-# The data-cache TABLE is part of the model (`Model/CacheViews.lean`): what `get_data_cache_entries()` shows is compared with the
-# model after every snapshot of the whole-program suite, and judged on the real objects: every cell of a valid block shows the
+# The data-cache TABLE is part of the model (`Model/CacheViews.lean`). What `get_data_cache_entries()` shows is judged here on the real
+# objects after every snapshot of the whole-program suite: every cell of a valid block shows the
 # address base + 4j and the value a load from that address returns now.
 _cases_plain = cases
 
 
 def cases(rng, tier):
     for c in _cases_plain(rng, tier):
-        if c.suite == "sim-dcache-prog":
-            c.lines = [x for l in c.lines for x in ((l, "sim.dcachetable") if l == "sim.snap" else (l,))]
+        # (the correspondence of the rendered table with the model runs in C09, whose tie follows the real replacement policy by
+        #  design; here the table is judged on the real objects only, which does not depend on which block a policy evicts)
         yield c
 
 
@@ -171,7 +171,7 @@ def oracle(c):
         o = im.run(l)
         if o.startswith("F") or o.startswith("X") or " F " in o or " X " in o:
             return f_
-        if l != "sim.dcachetable":
+        if l != "sim.snap":
             continue
         tab = im.sim.get_data_cache_entries()
         if tab is None:
